@@ -64,6 +64,22 @@ out+=['',f'{det} of {n} seeded changes are caught by the check of the property t
  'flag; dependency errors reach the pipeline unchanged; record serialised with the new namespace list in place; the outgoing',
  'scan\'s pass predicate made a function of the key alone (an early `continue` of a passing key now fails); repeated-reference',
  'test against the remembered version; source full-sync mode entered once; `AsEntity` recover guard.','',
+ 'Wave 12 (seeds m9/m10, C01/C03 m11/m12): 3 of its 40 changes were first missed. C04-m9 hoists the key buffers of the',
+ '"reference went away" markers out of the inner loop - every key handed to `txn.Set` is still laid out correctly at the call,',
+ 'but badger keeps the slice until commit, so all markers of a predicate end up with the last key: caught since the engine has',
+ 'hand-over sets (`retains key, val` on `Txn.Set`; obligation `retained:…`). C02-m9 decodes the in-batch predecessor into the',
+ 'entity already filled from the stored version (json.Unmarshal merges): caught by `consumes v` on `json.Unmarshal`',
+ '(`once@Unmarshal#1`). C18-m10 reads the change entry of the previous run with the latest-only flag: the query goroutine of a',
+ 'dependency join (`processDependency$1`) was not under contract; it is now (first query per start point, paging, back-dated',
+ 'query, every result sent on - send anchors).','',
+ 'Wave 13 (8 agents, C02 C05 C08 C09 C13 C15 C17 C19, told to stay away from the central functions): 6 of its 16 changes were',
+ 'first missed. Four by attribution only (the failing obligation existed in the check of another property): the 1001st',
+ 'tombstone of a completion batch (C09 obligation, now also C08), the POST handler batch closure (C01/C04, now also C15), the',
+ 'lock obligations of the counter update (C19/C14, now also C05: a second dataset write lock under core.Dataset\'s is a lock',
+ 'order violation). Genuinely new: the EGDM shim must let a hash win over a later slash (`indexOf(fullG, "#") <= 0` on the',
+ 'slash branch); the meta entity is read from core.Dataset alone on rename and delete; `toMap` leaves a tagged field out only',
+ 'when it is an omitempty field holding its zero value (C02-m11, ported onto the tree after fix 2d56ca0) - writing that',
+ 'contract is what made the converse fail on the unchanged tree (D21, section 7.1).','',
  'Hand-made must-fail corpus: `selftest/mutants/*.patch` ('+str(len(glob.glob('/verif/selftest/mutants/*.patch')))+' mutants, each with the obligation it must fail in its `.json`),',
  'run together with the seeds by `selftest/run.sh`.','']
 txt='\n'.join(out)
